@@ -642,6 +642,9 @@ func propsForReject(why string) []string {
 			set["C05"] = true
 		case strings.HasPrefix(w, "sys-"):
 			set["C16"] = true
+			if w == "sys-delete-cascade" {
+				set["C04"] = true
+			}
 		case w == "absent-child":
 			set["C15"] = true
 		}
